@@ -93,17 +93,30 @@ func envOr(k, d string) string {
 var propDeps = map[string][]string{}
 
 func hasProp(ps []string, p string) bool {
+	deps := propClosure(p)
 	for _, x := range ps {
-		if x == p {
+		if deps[x] {
 			return true
-		}
-		for _, d := range propDeps[p] {
-			if x == d {
-				return true
-			}
 		}
 	}
 	return false
+}
+
+// propClosure: p and everything it (transitively) depends on.
+func propClosure(p string) map[string]bool {
+	seen := map[string]bool{p: true}
+	work := []string{p}
+	for len(work) > 0 {
+		q := work[len(work)-1]
+		work = work[:len(work)-1]
+		for _, d := range propDeps[q] {
+			if !seen[d] {
+				seen[d] = true
+				work = append(work, d)
+			}
+		}
+	}
+	return seen
 }
 
 // encodeFor encodes every function under contract that carries the property
